@@ -173,6 +173,27 @@ pub fn gen(stream: &str, tier: &str, seed: u64) -> Vec<String> {
                 out.push(format!("{} {}", op, hex("/".repeat(n).as_bytes())));
                 out.push(format!("{} {}", op, hex(format!("$share/g/{}", "/".repeat(n - 9)).as_bytes())));
             }
+            // … and with the CASE variants of the two reserved tokens (4 levels)
+            {
+                let toks = ["$share", "$SHARE", "$Share", "$SYS", "$sys", "$Sys", "+", "#", "", "a", "g"];
+                let maxl = if thorough { 5 } else { 4 };
+                for len in 1..=maxl {
+                    let total = (toks.len() as u64).pow(len as u32);
+                    for mut k in 0..total {
+                        let mut parts: Vec<&str> = Vec::new();
+                        let mut cased = false;
+                        for _ in 0..len {
+                            let t = toks[(k % toks.len() as u64) as usize];
+                            cased |= matches!(t, "$SHARE" | "$Share" | "$sys" | "$Sys");
+                            parts.push(t);
+                            k /= toks.len() as u64;
+                        }
+                        if cased {
+                            out.push(format!("{} {}", op, hex_or_dash(parts.join("/").as_bytes())));
+                        }
+                    }
+                }
+            }
             // characters an implementation might treat specially (BOM, non-characters, white space, …) at the
             // start, inside and at the end of representative texts
             for sp in crate::pgen::SPECIALS {
@@ -256,6 +277,47 @@ pub fn gen(stream: &str, tier: &str, seed: u64) -> Vec<String> {
                 // a fixed pseudo-random walk that visits every op three times in different neighbourhoods
                 let i = (k.wrapping_mul(7919) + (k / n) * 104_729) % n;
                 out.push(pool[i].clone());
+            }
+        }
+        "hist" => {
+            // HISTORY: the same text presented in different roles back to back (as a filter, then as a name,
+            // then as a filter again; inside SUBSCRIBE, then PUBLISH, then UNSUBSCRIBE, both families), and the
+            // same packet decoded twice around a different one.  A result must be a function of the op alone:
+            // memoised validations, "last topic" caches and the like show up here.
+            let toks = ["$share", "$SYS", "+", "#", "", "a", "g"];
+            let mut texts: Vec<String> = vec!["sensors/+/temp".into(), "a".into(), "".into(), "$share/g".into(), "$share/g/t".into(), "a/#".into(), "#".into(), "+".into(), "$SYS/x".into(), "é/你".into()];
+            for len in 1..=3usize {
+                let total = (toks.len() as u64).pow(len as u32);
+                for mut k in 0..total {
+                    let mut parts: Vec<&str> = Vec::new();
+                    for _ in 0..len {
+                        parts.push(toks[(k % toks.len() as u64) as usize]);
+                        k /= toks.len() as u64;
+                    }
+                    texts.push(parts.join("/"));
+                }
+            }
+            for (i, t) in texts.iter().enumerate() {
+                let h = hex_or_dash(t.as_bytes());
+                let other = hex_or_dash(texts[(i * 7 + 3) % texts.len()].as_bytes());
+                for seq in [["tf", "tn", "tf"], ["tn", "tf", "tn"]] {
+                    for op in seq {
+                        out.push(format!("{} {}", op, h));
+                    }
+                }
+                out.push(format!("tf {}", h));
+                out.push(format!("tf {}", other));
+                out.push(format!("tn {}", h));
+                if t.len() < 100 {
+                    for v3 in [true, false] {
+                        let fam = if v3 { "v3" } else { "v5" };
+                        let fr = topic_frames(v3, t); // [SUBSCRIBE, UNSUBSCRIBE, PUBLISH]
+                        for k in [0usize, 2, 1, 2, 0] {
+                            out.push(format!("dec {} {}", fam, hex(&fr[k])));
+                            out.push(format!("poll {} {} - eof", fam, hex(&fr[k])));
+                        }
+                    }
+                }
             }
         }
         "tfcmp" => {
